@@ -93,6 +93,32 @@ def handleHier (toks : List String) : Option String := do
   | none => some "panic"
   | some ls => some s!"ok {showNats ls}"
 
+def showWord (w : List Nat) : String := ".".intercalate (w.map toString)
+
+/-- `vocab docs=<token ids per document> lo= hi= minabs= maxabs= stop=<words> cap=none|k rev=0|1`:
+`CountVectorizer::fit` on documents given as token-id lists (a word = its token list, ordered like
+the strings the harness builds from fixed-width tokens).  The per-document hash set is handed to
+the model in first-occurrence order (`rev=0`) or reversed (`rev=1`) — the theorems say the order
+cannot matter.  Answer: the learned (word, document frequency) pairs sorted by word. -/
+def handleVocab (toks : List String) : Option String := do
+  let docs ← argNats2 toks "docs"
+  let lo ← argNat toks "lo"; let hi ← argNat toks "hi"
+  let minabs ← argNat toks "minabs"; let maxabs ← argNat toks "maxabs"
+  let stop ← argNats2 toks "stop"
+  let cap ← (match arg toks "cap" with
+    | some "none" => some none
+    | some s => (parseNat s).map some
+    | none => none)
+  let rev ← argNat toks "rev"
+  if rev > 1 then none
+  -- ParamGuard::check_ref of CountVectorizerParams (n-gram boundaries)
+  if lo = 0 ∨ hi = 0 ∨ hi < lo then some "err" else
+  let sets := docs.map fun d =>
+    let s := (ngrams d lo hi).eraseDups
+    if rev = 1 then s.reverse else s
+  let v := sortByKey (fitVocabulary sets minabs maxabs stop cap)
+  some s!"ok n={v.length} vocab={showList (fun e => showWord e.1 ++ "=" ++ toString e.2) v}"
+
 def handle (toks : List String) : String :=
   let r := match toks with
     | "parfor" :: rest => handleParFor rest
@@ -100,6 +126,7 @@ def handle (toks : List String) : String :=
     | "nbargmax" :: rest => handleNb rest
     | "labels" :: rest => handleLabels rest
     | "hier" :: rest => handleHier rest
+    | "vocab" :: rest => handleVocab rest
     | _ => none
   r.getD "bad-op"
 
